@@ -82,6 +82,9 @@ class World:
         # an identification exchange on every (re)connect: the reconnecting thread talks to the device itself
         scen['ident'] = rng.random() < 0.3 and not scen['varlen']
         scen['raising_cb'] = rng.random() < 0.4
+        # a second communicator of the same class in the node, talking to another device that never fails: its reconnect
+        # callbacks (registered under the same names) have nothing to do with this one's
+        scen['bystander'] = rng.random() < 0.4
         if fault in ('disconnect', 'disconnect-refuse') and rng.random() < 0.5:
             # callers that keep calling while the communicator is disconnected and being reconnected (which takes a while)
             scen['pause'] = rng.choice([0.7, 1.6, 3.2])
@@ -253,6 +256,8 @@ class World:
         self.sockmod.listeners.clear()
         del self.sockmod.attempts[:]
         self.sockmod.listen('devhost', 5001, self.make_device(scen, dev))
+        if scen.get('bystander'):
+            self.sockmod.listen('otherhost', 5002, lambda sock: None)      # accepts, never talks, never fails
         base = IO.StringIO if scen['kind'] == 'string' else IO.BytesIO
         updates = []
         cbcalls = []
@@ -280,6 +285,9 @@ class World:
                 cfg['io']['wait_before'] = {'value': scen['wait_before']}
             if scen.get('ident'):
                 cfg['io']['identification'] = [('IDN', 'R:IDN')] if scen['kind'] == 'string' else [('Q I D N _ _ _ _', 'R I D N _ _ _ _')]
+            if scen.get('bystander'):
+                cfg['io2'] = {'cls': type('IO16b', (base,), {'__module__': __name__}), 'description': 'another communicator',
+                              'uri': 'tcp://otherhost:5002', 'pollinterval': {'value': 3}}
             node = self.nodes.Node(cfg, testonly=False).build()
             io = node.secnode.modules['io']
             info['io'] = io
@@ -292,6 +300,10 @@ class World:
                     raise ValueError('reconnect callback fails')
                 io.registerReconnectCallback('cbx', cbx)
             io.registerReconnectCallback('cb2', lambda: cbcalls.append((s.now, 'cb2')) or True)
+            if scen.get('bystander'):
+                io2 = node.secnode.modules['io2']
+                io2.registerReconnectCallback('cb1', lambda: cbcalls.append((s.now, 'other-cb1')) or True)
+                io2.registerReconnectCallback('cb2', lambda: cbcalls.append((s.now, 'other-cb2')) or True)
             tokn = [0]
 
             def mktok(i):
@@ -418,8 +430,12 @@ class World:
             r.sample({'scenario': scen, 'device_commands': [(round(t - self.D.T0, 3), c.decode('latin1')) for t, c in dev['cmds']][:10],
                       'results': {f'{k[0]}.{k[1]}': {kk: (vv if not isinstance(vv, bytes) else vv.decode('latin1')) for kk, vv in v.items() if kk in ('op', 'error')} for k, v in results.items()}})
         if s.status != 'ok':
-            key_ = f'C16/run-{s.status}'
-            if s.status == 'deadlock':
+            status_ = s.status
+            if status_ == 'horizon' and scen.get('bystander') and any(i_ == id(getattr(info.get('io'), '_lock', None)) for n, i_, o in s.lock_waits):
+                # the poll thread of the second communicator keeps the run alive: the same stand-still ends at the horizon
+                status_ = 'deadlock'
+            key_ = f'C16/run-{status_}'
+            if status_ == 'deadlock':
                 # mechanism: which operation holds the communicator lock while it waits (for the access lock of a reconnect)
                 # somebody waits for the communicator lock: who holds it (while waiting himself for the access lock)?
                 lid = id(getattr(info.get('io'), '_lock', None))
@@ -436,6 +452,13 @@ class World:
         if s.escaped:
             r.violation('C16/exception-escapes-thread', f'{s.escaped[0][:2]}', dict(case, traceback=s.escaped[0][2]))
             return
+        if scen.get('bystander'):
+            r.count('runs_with_a_second_communicator')
+            foreign = [n for t, n in cbcalls if n.startswith('other-')]
+            if foreign:
+                r.violation('C16/reconnect-callbacks/of-a-communicator-that-did-not-reconnect',
+                            f'the callbacks {foreign} registered on the second communicator ran although its connection never failed', case)
+                return
         faulty = scen['fault'] in ('silence', 'disconnect', 'disconnect-refuse', 'late-reply', 'disconnect-idle', 'noise', 'dribble')
         if dev.get('dribbled'):
             r.count('incomplete_replies_arriving_byte_by_byte', dev['dribbled'])
@@ -572,7 +595,7 @@ class World:
             rec_times = [c for c in dev['connected'] if c > dev['dropped']]
             if rec_times and info.get('connected_at_end'):
                 last = rec_times[-1]
-                calls = [n for t, n in cbcalls if t >= last and n != 'cbx']
+                calls = [n for t, n in cbcalls if t >= last and n != 'cbx' and not n.startswith('other-')]
                 if sorted(calls) != ['cb1', 'cb2']:
                     r.violation('C16/reconnect-callbacks', f'after the reconnect at +{last - dev["dropped"]:.2f} s the callbacks ran {calls}', case)
                     return
